@@ -59,12 +59,72 @@ def termify(a: Arr):
             c.oblige("lemma", "matrix-extensionality", goal)
             a.term = t
             return t
-    t = z3.Const(c.fresh_name("M"), Mat)
+    t = _template_term(a)
+    if t is None:
+        t = z3.Const(c.fresh_name("M"), Mat)
     known.append((a.copy(), t))
     a.term = t
     # link the term's cells to the array's cells on demand: reading the kernel result of a termified
     # array never needs it (kernels are opaque), so no facts are added here
     return t
+
+
+def _template_term(a):
+    """matrix term as an uninterpreted function of the free constants of the generic cell expression (so that
+    'the same matrix at provably equal parameters' is the same term by congruence); None if the cell cannot be
+    evaluated at bound indices"""
+    from . import npmodel as N
+    c = cur()
+    if not all(len(ax) == 1 for ax in a.axes):
+        return None
+    # fresh generic indices with (soft) range facts, renamed to canonical names for the template key
+    if not all(is_pyint(n_) or c.is_valid(zi(n_) > 0) for n_ in a.shape):
+        return None
+    bvs = [c.fresh_int("mt") for _ in range(a.ndim)]
+    for b_, n_ in zip(bvs, a.shape):
+        c.fact(z3.And(b_ >= 0, z3.Implies(zi(n_) > 0, b_ < zi(n_))))
+    canon = [z3.Int(f"m!{j}") for j in range(a.ndim)]
+    c.numpy_mode += 1
+    try:
+        try:
+            v = a.cell(tuple((b,) for b in bvs))
+        except Exception:
+            return None
+    finally:
+        c.numpy_mode -= 1
+    if isinstance(v, C):
+        exprs = [z3.simplify(v.re), z3.simplify(v.im), zb(v.nan)]
+    else:
+        try:
+            v = sym.toF(v)
+        except Exception:
+            return None
+        exprs = [z3.simplify(v.v), zb(v.nan)]
+    exprs += [zi(n) if not is_pyint(n) else z3.IntVal(n) for n in a.shape]
+    bids = {b.get_id() for b in bvs}
+    free, seen = [], set()
+    for e in exprs:
+        st = [e]
+        while st:
+            x = st.pop()
+            if x.get_id() in seen:
+                continue
+            seen.add(x.get_id())
+            if z3.is_const(x) and x.decl().kind() == z3.Z3_OP_UNINTERPRETED and x.get_id() not in bids \
+                    and x.sort() in (z3.IntSort(), z3.RealSort(), z3.BoolSort(), Mat):
+                free.append(x)
+                continue
+            st.extend(reversed(x.children()))
+    holes = [z3.Const(f"hole!{j}", x.sort()) for j, x in enumerate(free)]
+    pairs = list(zip(free, holes)) + list(zip(bvs, canon))
+    key = ("matrix-template", tuple((z3.substitute(e, *pairs) if pairs else e).sexpr() for e in exprs),
+           tuple(str(x.sort()) for x in free))
+    decl = c.memo.get(key)
+    if decl is None:
+        nm = c.fresh_name("MAT")
+        decl = z3.Function(nm, *[x.sort() for x in free], Mat) if free else z3.Const(nm, Mat)
+        c.memo[key] = decl
+    return decl(*free) if free else decl
 
 
 def T_(t):
